@@ -10,7 +10,7 @@ cd $WT
 git apply $src/patch.diff || { echo "$id APPLY-FAILED"; exit 1; }
 suite=$(PYTHONPATH=$WT/src /venv/bin/python -m pytest -q -p no:cacheprovider --timeout=900 2>&1 | tail -1)
 mkdir -p /tmp/sverify_demo.$$; cp $src/demo_test.py /tmp/sverify_demo.$$/demo_test.py
-sed -i "s#/tmp/seed2/[A-Z0-9]*/wt#$WT#g" /tmp/sverify_demo.$$/demo_test.py
+sed -i "s#/tmp/seed[0-9]*/[A-Z0-9]*/wt#$WT#g" /tmp/sverify_demo.$$/demo_test.py
 with=$(PYTHONPATH=$WT/src timeout 600 /venv/bin/python -m pytest -q -p no:cacheprovider --timeout=300 /tmp/sverify_demo.$$/demo_test.py 2>&1 | tail -1)
 git apply -R $src/patch.diff
 without=$(PYTHONPATH=$WT/src timeout 600 /venv/bin/python -m pytest -q -p no:cacheprovider --timeout=300 /tmp/sverify_demo.$$/demo_test.py 2>&1 | tail -1)
